@@ -6,9 +6,12 @@ package main
 
 import (
 	"encoding/hex"
+	"encoding/json"
 	"fmt"
 	"os"
+	"os/exec"
 	"path/filepath"
+	"runtime"
 	"runtime/pprof"
 	"sort"
 	"strings"
@@ -72,6 +75,135 @@ func (v *vstore) add(sig, msg string, rep replayCase, size int, key string) {
 	}
 }
 
+func (v *vstore) addN(sig, msg string, rep replayCase, size int, key string, n int64) {
+	v.add(sig, msg, rep, size, key)
+	v.mu.Lock()
+	v.m[sig].count += n - 1
+	v.mu.Unlock()
+}
+
+// ---- real-directory cases, one share per subprocess -------------------------------
+
+type fsViol struct {
+	Sig, Msg string
+	Rep      replayCase
+	Size     int
+	Key      string
+	Count    int64
+}
+
+type fsOut struct {
+	Counters   map[string]int64
+	Nontrivial []uint64
+	Samples    []any
+	Viol       []fsViol
+	Machinery  []string
+}
+
+// fsShare runs the stores whose index is i modulo k ("F i k"), first through the
+// legacy store, then through the DiskCache.
+func fsShare(spec string, b bounds, fse *fsEnv) fsOut {
+	var i, k int
+	fmt.Sscanf(spec, "F %d %d", &i, &k)
+	out := fsOut{Counters: map[string]int64{}}
+	local := &vstore{m: map[string]*vrec{}}
+	var stores [][]string
+	for _, s := range fsSingleNames(b.FSSigmaLen) {
+		stores = append(stores, []string{s})
+	}
+	nSingle := len(stores)
+	stores = append(stores, twoManifestStores(b.Thorough)...)
+	sampled := map[string]bool{}
+	for _, kind := range []string{"legacy", "cache"} {
+		legacy := kind == "legacy"
+		for si, st := range stores {
+			if si%k != i {
+				continue
+			}
+			rounds := 1
+			fam := "FL"
+			if !legacy {
+				fam = "FC"
+			}
+			if si < nSingle {
+				fam += "1"
+			} else {
+				fam += "2"
+				if legacy {
+					rounds = rounds2
+				}
+			}
+			run := func() fsResult {
+				if legacy {
+					return fse.legacyCase(st, rounds, false)
+				}
+				return fse.cacheCase(st, false)
+			}
+			res := run()
+			out.Counters["evaluations"]++
+			out.Counters["fs_queries"] += int64(res.queries)
+			if res.skipped != "" && len(res.fails) == 0 {
+				out.Counters["fs_stores_not_buildable"]++
+				continue
+			}
+			key := kind + ":" + strings.Join(st, "\x01")
+			out.Nontrivial = append(out.Nontrivial, evid.Hash("fs:"+key))
+			out.Counters["cases_family_"+fam]++
+			if !sampled[fam] && i == 0 {
+				sampled[fam] = true
+				out.Samples = append(out.Samples, map[string]any{"family": fam, "store": st, "case_variants_of_first": caseVariants(st[0]), "queries": res.queries})
+			}
+			if len(res.fails) == 0 {
+				continue
+			}
+			want := sigSet(res.fails)
+			stable := true
+			for n := 0; n < 5 && stable; n++ {
+				if got := sigSet(run().fails); got != want {
+					out.Machinery = append(out.Machinery, fmt.Sprintf("C13 %s store %q not reproducible: first %q then %q", kind, st, want, got))
+					stable = false
+				}
+			}
+			if !stable {
+				continue
+			}
+			size := 1000 * len(st)
+			for _, s := range st {
+				size += len(s)
+			}
+			for _, f := range res.fails {
+				local.add(f.sig, f.msg, storeCase(kind, st, rounds), size, key)
+			}
+		}
+	}
+	for sig, v := range local.m {
+		out.Viol = append(out.Viol, fsViol{sig, v.msg, v.rep, v.size, v.key, v.count})
+	}
+	return out
+}
+
+func spawnFSWorker(item string) (*fsOut, error) {
+	self, err := os.Executable()
+	if err != nil {
+		return nil, err
+	}
+	cmd := exec.Command(self)
+	cmd.Env = append(os.Environ(), "VERIF_C13_FSWORKER="+item)
+	var stderr strings.Builder
+	cmd.Stderr = &stderr
+	raw, err := cmd.Output()
+	if err != nil {
+		return nil, fmt.Errorf("worker failed: %v\n%s", err, stderr.String())
+	}
+	// the result is the last line that is a JSON object (code under test may print)
+	lines := strings.Split(strings.TrimSpace(string(raw)), "\n")
+	var out fsOut
+	if err := json.Unmarshal([]byte(lines[len(lines)-1]), &out); err != nil {
+		return nil, fmt.Errorf("worker output not understood: %v", err)
+	}
+	return &out, nil
+}
+
 func sigSet(fs []fail) string {
 	var l []string
 	for _, f := range fs {
@@ -128,6 +260,12 @@ func main() {
 		cleanup()
 		os.Exit(code)
 	}
+	if spec := os.Getenv("VERIF_C13_FSWORKER"); spec != "" {
+		out := fsShare(spec, b, fse)
+		cleanup()
+		json.NewEncoder(os.Stdout).Encode(out)
+		os.Exit(0)
+	}
 
 	r.Rule("Every generated string is fed unchanged to every entry point (model.ParseName/ParseNameBare/ParseNameFromFilepath, names.Parse+default mask, blob.nameToPath, Registry.parseNameExtended/splitExtended, server.ParseModelPath(..).GetManifestPath, server.GetBlobsPath, blob.ParseDigest+DiskCache.GetFile). " +
 		"Spaces, all enumerated completely: S = all strings of <= n symbols over the 17-symbol alphabet in bounds.sigma; N = every name form (m, m:t, n/m, m@d, n/m:t, h/n/m, m:t:x, h/n/m:t, h/n/m/t, n:t/m:t, h\\n\\m\\t) with every part drawn from bounds.part_alphabet (lengths 79/80/81/349/350/351, '.', '..', empty, placeholder, separator/control/non-ASCII bytes, the defaults in both cases); W = 5-part forms over a 12-value alphabet; X = scheme x name x @digest decorations; D = digest prefix x separator x body(63/64/65, lower/upper/mixed/zero, non-hex or traversal bytes at each end and inside) x suffix x lead; E = a well-formed digest with every sigma string of <= k symbols inserted at / overwriting 8 offsets. " +
@@ -147,6 +285,7 @@ func main() {
 	var obsMu sync.Mutex
 	var obsCount int64
 	obsSmallest := ""
+	var skippedItems []string
 
 	record := func(kind string, fails []fail, rerun func() []fail, rep replayCase, size int, key string) {
 		want := sigSet(fails)
@@ -161,7 +300,20 @@ func main() {
 		}
 	}
 
-	items := append([]string{"FL", "FC"}, pureItems(b)...)
+	// Internal wall-clock budget (never part of an oracle): items that have not
+	// started when it runs out are skipped and the run is reported as not exhaustive.
+	budget := 75 * time.Second
+	if thorough {
+		budget = 13 * time.Minute
+	}
+	r.SetDeadline(budget)
+
+	nShares := runtime.NumCPU()
+	var items []string
+	for i := 0; i < nShares; i++ {
+		items = append(items, fmt.Sprintf("F %d %d", i, nShares))
+	}
+	items = append(items, pureItems(b)...)
 	timing := os.Getenv("VERIF_C13_TIMING") != ""
 	if pf := os.Getenv("VERIF_C13_PROF"); pf != "" {
 		f, _ := os.Create(pf)
@@ -169,75 +321,49 @@ func main() {
 		defer pprof.StopCPUProfile()
 	}
 	r.Parallel(0, items, func(item string, sub *evid.Run) {
+		if r.Expired() {
+			obsMu.Lock()
+			skippedItems = append(skippedItems, item)
+			obsMu.Unlock()
+			return
+		}
 		if timing {
 			t0 := time.Now()
 			defer func() { fmt.Fprintf(os.Stderr, "item %-20s %.2fs\n", item, time.Since(t0).Seconds()) }()
 		}
-		switch item {
-		case "FL", "FC":
-			legacy := item == "FL"
-			kind := "cache"
-			if legacy {
-				kind = "legacy"
+		fam := item[:1]
+		if fam == "F" {
+			// the legacy store is addressed through the process-wide OLLAMA_MODELS,
+			// so every share of the real-directory cases runs in its own process
+			out, err := spawnFSWorker(item)
+			if err != nil {
+				r.Extra("machinery_errors", []string{"C13 " + item + ": " + err.Error()})
+				return
 			}
-			var stores [][]string
-			for _, s := range fsSingleNames(b.FSSigmaLen) {
-				stores = append(stores, []string{s})
+			for k, n := range out.Counters {
+				sub.Add(k, n)
 			}
-			nSingle := len(stores)
-			stores = append(stores, twoManifestStores(thorough)...)
-			var evals, queries, skipped int64
-			sampled := false
-			for si, st := range stores {
-				rounds := 1
-				fam := item + "1"
-				if si >= nSingle {
-					fam = item + "2"
-					if legacy {
-						rounds = rounds2
-					}
-				}
-				run := func() fsResult {
-					if legacy {
-						return fse.legacyCase(st, rounds, false)
-					}
-					return fse.cacheCase(st, false)
-				}
-				res := run()
-				evals++
-				queries += int64(res.queries)
-				if res.skipped != "" && len(res.fails) == 0 {
-					skipped++
-					continue
-				}
-				key := kind + ":" + strings.Join(st, "\x01")
-				sub.Distinct("nontrivial", "fs:"+key)
-				sub.Add("cases_family_"+fam, 1)
-				if !sampled || si == nSingle {
-					sampled = true
-					sub.Sample(map[string]any{"family": fam, "store": st, "case_variants_of_first": caseVariants(st[0]), "queries": res.queries})
-				}
-				if len(res.fails) > 0 {
-					size := 0
-					for _, s := range st {
-						size += len(s)
-					}
-					record(kind, res.fails, func() []fail { return run().fails }, storeCase(kind, st, rounds), size+1000*len(st), key)
-				}
+			for _, h := range out.Nontrivial {
+				sub.DistinctH("nontrivial", h)
 			}
-			sub.Add("evaluations", evals)
-			sub.Add("fs_queries", queries)
-			sub.Add("fs_stores_not_buildable", skipped)
+			for _, smp := range out.Samples {
+				sub.Sample(smp)
+			}
+			for _, v := range out.Viol {
+				vs.addN(v.Sig, v.Msg, v.Rep, v.Size, v.Key, v.Count)
+			}
+			if len(out.Machinery) > 0 {
+				r.Extra("machinery_errors", out.Machinery)
+			}
 			return
 		}
-		fam := item[:1]
 		var evals int64
 		accCount := map[uint32]int64{}
 		firstSample, accSample := false, false
 		var bpCalls int64
 		runItem(item, b, func(s string) {
 			evals++
-			bp := fam == "D" || fam == "E" || fam == "S" && symCount(s) <= b.BlobsPathSigmaLen
+			bp := fam == "D" || fam == "E" || (fam == "S" || fam == "T") && symCount(s) <= b.BlobsPathSigmaLen
 			if bp {
 				bpCalls++
 			}
@@ -265,6 +391,9 @@ func main() {
 				record("str", k.fails, func() []fail { return e.checkStr(s, bp).fails }, strCase(s), len(s), s)
 			}
 		})
+		if fam == "T" {
+			fam = "S"
+		}
 		sub.Add("evaluations", evals)
 		sub.Add("strings_family_"+fam, evals)
 		sub.Add("strings_fed_to_GetBlobsPath", bpCalls)
@@ -280,6 +409,14 @@ func main() {
 			}
 		}
 	})
+	if len(skippedItems) > 0 {
+		sort.Strings(skippedItems)
+		show := skippedItems
+		if len(show) > 12 {
+			show = show[:12]
+		}
+		r.NotExhaustive(fmt.Sprintf("internal time budget of %v used up: %d of %d work items were not run (%s ...). Item order is F (real directory), N, W, X, D, E, S (sigma strings below the longest length), T (sigma strings of exactly %d symbols, by first two symbols); everything before the first skipped item was covered completely", budget, len(skippedItems), len(items), strings.Join(show, "; "), b.SigmaLen))
+	}
 
 	// hand the violations to evid, smallest case per signature, in a stable order
 	var sigs []string
